@@ -26,6 +26,7 @@ type CPort struct {
 
 type Workload struct {
 	Kind, NS, Name string
+	Owner          string // Kind "Pod" only: name of a controlling ReplicaSet ("" = bare pod)
 	Labels         map[string]string
 	Ports          []CPort
 	Replicas       int
@@ -561,5 +562,8 @@ func ConnString(c map[string][]Interval) string {
 }
 
 func (wl *Workload) PeerString() string {
+	if wl.Kind == "Pod" && wl.Owner != "" {
+		return wl.NS + "/" + wl.Owner + "[ReplicaSet]"
+	}
 	return wl.NS + "/" + wl.Name + "[" + wl.Kind + "]"
 }
